@@ -104,6 +104,52 @@ def register(OPS, drv):
             gopherp.GopherPlusProtocol.renderobjinfo = orig_render
             w.close()
 
+    def op_faults(job):
+        """Requests served while opening ONE path fails (after isfile()/stat succeeded):
+        cases {fault: eacces|eio|vanish, path: selector, requests}."""
+        import errno
+        import os
+        import pygopherd.handlers.base as hbase
+        w = drv.World(job)
+        orig_open = hbase.VFS_Real.open
+        res = []
+        try:
+            for case in job["cases"]:
+                target, fault = case["path"], case["fault"]
+                saved = {}
+
+                def f_open(self, selector, *a, **k):
+                    if selector == target:
+                        if fault == "eacces":
+                            raise PermissionError(errno.EACCES, "Permission denied", self.getfspath(selector))
+                        if fault == "eio":
+                            raise OSError(errno.EIO, "Input/output error", self.getfspath(selector))
+                        if fault == "vanish":
+                            fp = os.fsencode(self.getfspath(selector))
+                            if os.path.exists(fp):
+                                with open(fp, "rb") as fh:
+                                    saved[fp] = fh.read()
+                                os.unlink(fp)
+                    return orig_open(self, selector, *a, **k)
+
+                outs = []
+                for r in case["requests"]:
+                    hbase.VFS_Real.open = f_open
+                    try:
+                        o = drv.serve_once(w.config, drv.s2b(r["data"]), tls=r.get("tls", False))
+                    finally:
+                        hbase.VFS_Real.open = orig_open
+                        for fp, data in saved.items():
+                            with open(fp, "wb") as fh:
+                                fh.write(data)
+                        saved.clear()
+                    outs.append({"out": o["out"], "exc": o["exc"], "log": o["log"][-3:]})
+                res.append({"results": outs})
+            return {"cases": res}
+        finally:
+            hbase.VFS_Real.open = orig_open
+            w.close()
+
     def op_fresh(job):
         """Reference answers: every tree state is served by a process that has never served anything
         (a fork of this driver, which only runs c15_fresh jobs)."""
@@ -164,6 +210,7 @@ def register(OPS, drv):
         return out
 
     OPS["c15_history"] = op_history
+    OPS["c15_faults"] = op_faults
     OPS["c15_fresh"] = op_fresh
     OPS["c15_world"] = op_world
     OPS["c15_splitlines"] = op_splitlines
